@@ -94,7 +94,13 @@ func c07RunImpl(c *Ctx, front uint64, o c07Opts, file []byte, supplied Val, quer
 	}
 	ctx := context.Background()
 	var sidx index.Index
-	if l, ok := supplied.(VL); ok && len(l) == 3 {
+	if l, ok := supplied.(VL); ok && len(l) == 2 { // (tidx bytes): a hand-crafted index section
+		var err error
+		sidx, err = index.ReadFrom(bytes.NewReader([]byte(l[1].(VB))))
+		if err != nil {
+			return VL{VT("generr"), verr(err)}
+		}
+	} else if ok && len(l) == 3 {
 		g := c07OptsFromVal(l[1])
 		var err error
 		sidx, err = carv2.GenerateIndex(bytes.NewReader([]byte(l[2].(VB))), g.v2()...)
@@ -171,6 +177,8 @@ func c07RunImpl(c *Ctx, front uint64, o c07Opts, file []byte, supplied Val, quer
 				} else {
 					out = append(out, VL{VT("keys"), cidsVal(rs)})
 				}
+			case "close":
+				out = append(out, outOf(bs.Close()))
 			default:
 				panic("harness: unknown ro query")
 			}
@@ -326,6 +334,12 @@ func c07HdrTable(files ...[]byte) Val {
 func init() {
 	registerReplay("ro", func(c *Ctx, in Val) Val {
 		l := in.(VL)
-		return c07RunImpl(c, uint64(l[0].(VN)), c07OptsFromVal(l[1]), []byte(l[2].(VB)), l[3], l[4].(VL), 0)
+		backing := 0
+		for _, q := range l[4].(VL) { // Close closing the backing too: the case was run through OpenReadOnly
+			if ql := q.(VL); ql[0].(VT) == "close" && ql[1].(VN) == 1 {
+				backing = 3
+			}
+		}
+		return c07RunImpl(c, uint64(l[0].(VN)), c07OptsFromVal(l[1]), []byte(l[2].(VB)), l[3], l[4].(VL), backing)
 	})
 }
